@@ -186,8 +186,66 @@ def build_driver(force=False):
         return drv
 
 
+SELFTEST = {}          # entry -> [(input, output)]: a few cases per run re-evaluated inside Coq (extraction_selftest)
+ENTRY_FN = {"c20": "run_c20", "schema": "run_schema", "f64": "run_f64", "simple": "run_simple", "simplefrag": "run_simple_frag",
+            "helper": "run_helper", "h14": "run_h14", "post": "run_post", "visited": "run_visited", "rules": "run_rules", "walk": "run_walk"}
+
+
+def _remember_for_selftest(entry, inputs, outs, k=4, maxlen=6000):
+    have = SELFTEST.setdefault(entry, [])
+    if len(have) >= k:
+        return
+    small = [i for i in range(len(inputs)) if len(inputs[i]) + len(outs[i]) <= maxlen]
+    if not small:
+        return
+    step = max(1, len(small) // k)
+    for i in small[::step][:k - len(have)]:
+        have.append((inputs[i], outs[i]))
+
+
+def sx_to_coq(x):
+    if isinstance(x, int):
+        return "A (%d)" % x
+    return "L [" + "; ".join(sx_to_coq(e) for e in x) + "]"
+
+
+def extraction_selftest(timeout=600):
+    """the extracted OCaml program against the Coq definitions it was extracted from: the remembered cases are evaluated
+    by vm_compute inside Coq and must give the driver's outputs. Returns (ok, n_cases, detail)."""
+    cases = [(e, i, o) for e, l in sorted(SELFTEST.items()) for i, o in l if e in ENTRY_FN]
+    if not cases:
+        return True, 0, ""
+    d = os.path.join(WORK, "selftest")
+    os.makedirs(d, exist_ok=True)
+    name = "Selftest_%d" % os.getpid()
+    path = os.path.join(d, name + ".v")
+    with open(path, "w") as f:
+        f.write("From Coq Require Import List ZArith.\nFrom Verif Require Import Base.Sx Result.ResultModel Schema.Run.\n"
+                "Import ListNotations.\nOpen Scope Z_scope.\n")
+        for n, (e, i, o) in enumerate(cases):
+            f.write("Example t%d : %s (%s) = (%s).\nProof. vm_compute. reflexivity. Qed.\n" % (
+                n, ENTRY_FN[e], sx_to_coq(parse_sx(i)), sx_to_coq(parse_sx(o))))
+    try:
+        p = run(["coqc", "-Q", os.path.join(COQ, "theories"), "Verif", path], timeout=timeout)
+        ok, detail = p.returncode == 0, (p.stdout + p.stderr)[-1500:]
+    except subprocess.TimeoutExpired:
+        ok, detail = False, "coqc timed out"
+    for ext in (".v", ".vo", ".vok", ".vos", ".glob"):
+        try:
+            os.remove(os.path.join(d, name + ext))
+        except OSError:
+            pass
+    return ok, len(cases), detail
+
+
 def run_model(entry, inputs, timeout=1200, shards=12):
     """inputs: list of s-expression strings; returns list of output strings (several driver processes for large batches)"""
+    outs = _run_model(entry, inputs, timeout, shards)
+    _remember_for_selftest(entry, inputs, outs)
+    return outs
+
+
+def _run_model(entry, inputs, timeout=1200, shards=12):
     drv = build_driver()
     if not inputs:
         return []
@@ -366,6 +424,13 @@ class Check:
             self.violation(what, dict(payload, finding_class=cls))
 
     def finish(self, level="proof"):
+        # the extraction is part of the trusted base: a few cases of this run are re-evaluated inside Coq
+        ok, n, detail = extraction_selftest()
+        if n:
+            self.coverage["extraction_selftest_cases"] = n
+        if not ok:
+            self.violation("the extracted model differs from the Coq definitions on a case of this run (vm_compute inside Coq)",
+                           {"theorem_or_correspondence": "extraction self-test", "detail": detail}, no_input=True)
         wall = time.time() - self.t0
         for cls, what in sorted(self.known_hit.items()):
             print("KNOWN-FINDING: property=%s class=%s %s" % (self.pid, cls, self.known[cls] or what))
@@ -396,6 +461,6 @@ class Check:
 
 TRUSTED_BASE_COMMON = [
     "Coq 8.16.1 kernel (coqc); vm_compute used for concrete examples and regenerated-term lemmas; no native_compute",
-    "extraction to OCaml with ExtrOcamlBasic only (no Extract Constant / Extract Inductive of our own); OCaml 4.13.1; /verif/ocaml/driver.ml (s-expression reader/printer over zarith)",
+    "extraction to OCaml with ExtrOcamlBasic only (no Extract Constant / Extract Inductive of our own); OCaml 4.13.1; /verif/ocaml/driver.ml (s-expression reader/printer over zarith); a few cases of every run are re-evaluated by vm_compute inside Coq and must give the driver's output (extraction self-test)",
     "hand-written Gallina model tied to /repo by the correspondence run of /verif/go/cmd/vharness (Go harness, generators, canonicalisers) and /verif/lib (python comparison)",
 ]
